@@ -1,7 +1,7 @@
 (* C02 — property theorems.  Nothing but statements, `exact`, Print Assumptions.
    Go's Response.Write / Header.Write / chunked writer are MODELLED (RespFraming.v);
    the reference client (Client.v, RFC 7230 3.3.3) is part of the specification. *)
-From G02 Require Import RespFraming Client Check FlushProofs CodecProofs WriterProofs ResponseProofs HeaderProofs Obligations.
+From G02 Require Import RespFraming Client Check FlushProofs CodecProofs WriterProofs ResponseProofs HeaderProofs HandlerProofs Obligations.
 Open Scope N_scope.
 
 (* The codec law: whatever follows on the connection, the reference client consumes exactly
@@ -141,6 +141,56 @@ Theorem T02_handler_read_delivered : forall meth r rs1 d rs2,
   nth_error (handler_flushes meth r (rs1 ++ d :: rs2)) (length rs1) = Some true.
 Proof. exact (handler_read_delivered ob_handler_flushes_every_write). Qed.
 Print Assumptions T02_handler_read_delivered.
+
+(* http.Handler variant: what writeResponse hands to net/http's ResponseWriter is the origin's
+   data — every header field with its values (and nothing else but "Trailer"), the body byte
+   for byte, the declared trailers under their own names. *)
+Theorem T02_handler_hands_over : forall r order,
+  wf (r_hdr r) -> canonical (r_hdr r) ->
+  (forall k v vs, raw_get k (r_hdr r) = Some (v :: vs) -> k <> b "Trailer" ->
+     raw_get k (handler_header r order) = Some (v :: vs)) /\
+  (forall k, raw_get k (r_hdr r) = None -> k <> b "Trailer" -> raw_get k (handler_header r order) = None) /\
+  concat (reads_of r) = body_bytes r /\
+  (forall k v vs, r_late r = [] -> wf (r_trailer r) -> canonical (r_trailer r) ->
+     raw_get k (r_trailer r) = Some (v :: vs) ->
+     raw_get k (handler_final r order) = Some (vals k (handler_header r order) ++ v :: vs)).
+Proof. exact (fun r order Hwf Hcan =>
+  conj (fun k v vs H1 H2 => handler_header_complete r order k v vs Hwf Hcan H1 H2)
+  (conj (fun k H1 H2 => handler_header_sound r order k Hwf Hcan H1 H2)
+  (conj (handler_body r)
+        (fun k v vs Hl Hw Hc Hk => handler_trailers_declared r order k v vs Hl Hw Hc Hk)))). Qed.
+Print Assumptions T02_handler_hands_over.
+
+(* ... and therefore, relative to a contract for net/http's server (assumed here, tested by the
+   end-to-end runs; see HandlerProofs.ServerContract for what the server adds on its own), the
+   client gets the origin's status, body and header fields through the http.Handler variant. *)
+Theorem T02_handler_codec_rel_server :
+  forall (server_wire : hmap -> N -> list str -> hmap -> str) (managed : str -> bool),
+  (forall v11 meth hdr code writes final rest,
+    exists o, client_parse v11 meth (server_wire hdr code writes final ++ rest) = Some (o, rest) /\
+              o_code o = code /\
+              (rfc_no_body meth code = false -> o_body o = concat writes) /\
+              (forall k vs, raw_get k hdr = Some vs -> managed k = false -> field_values k (o_fields o) = vs)) ->
+  forall v11 meth r order rest,
+    wf (r_hdr r) -> canonical (r_hdr r) ->
+    exists o, client_parse v11 meth
+                (server_wire (handler_header r order) (r_code r) (reads_of r) (handler_final r order) ++ rest) = Some (o, rest) /\
+              o_code o = r_code r /\
+              (rfc_no_body meth (r_code r) = false -> o_body o = body_bytes r) /\
+              (forall k v vs, raw_get k (r_hdr r) = Some (v :: vs) -> k <> b "Trailer" -> managed k = false ->
+                 field_values k (o_fields o) = v :: vs).
+Proof. exact handler_codec_rel_server. Qed.
+Print Assumptions T02_handler_codec_rel_server.
+
+(* roundTrip's discard: a header-only reply that arrives with a body (possible with a
+   RoundTripper other than http.Transport) leads to no Write in the http.Handler variant, and
+   the connection handler's header-only writer emits the same bytes with or without it. *)
+Theorem T02_discard_no_write : forall q r,
+  is_header_only (q_method q) (r_code r) = true -> r_code r <> 101 ->
+  reads_of (discard_body q r) = [] /\
+  (forall order, header_only_writes (discard_body q r) order = header_only_writes r order).
+Proof. exact (discard_no_write ob_discards_header_only_body). Qed.
+Print Assumptions T02_discard_no_write.
 
 (* res.Close when the response is written, and when the connection is kept. *)
 Theorem T02_close_decision : forall closing q r,
